@@ -154,7 +154,8 @@ def ser_xml_like(lines, rng, fmt):
             elif r < 0.92:
                 line_txt += rng.choice(["\n", "\n     ", "\r\n   "]) + sg; wrapped = True
             else:
-                line_txt += " <!-- aside: not displayed --> " + sg; wrapped = True
+                # markup that is no character data: a comment, or (XML only) a processing instruction
+                line_txt += (" <!-- aside: not displayed --> " if fmt != "dfxp" or rng.random() < 0.5 else " <?editor bookmark=12?> ") + sg; wrapped = True
         parts.append(line_txt)
     return "".join(parts), wrapped
 
@@ -215,6 +216,10 @@ def doc_vtt(caps, rng, numeric=False):
             if voice and rng.random() < 0.5:
                 segs.append("</v>")
             out.append(" ".join(segs[:1]) + (("" if voice else " ") + " ".join(segs[1:]) if len(segs) > 1 else "")); exp_lines.append(" ".join(exp))
+        if rng.random() < 0.08:
+            # a text line that begins with the word NOTE is cue text (a comment block can only begin outside a cue)
+            extra = rng.choice(["NOTE TO VISITORS", "NOTE", "NOTE\tthe bridge is closed"])
+            out.append(extra); exp_lines.append(" ".join(extra.split()))
         out.append("")
         expect.append(exp_lines)
     return "\n".join(out), expect, tagged
